@@ -6,8 +6,8 @@ from checks import callcommon, ctxcommon
 from framework import Case
 
 PROP = "C07"
-GENERATED = ['DtypeTables', 'Wrapper', 'SrcHints', 'SrcDecorate', 'Core', 'SrcExpand', 'HintLoop', 'Decorate']  # generated files this check's tie depends on
-LEAN_MODULES = ["Properties.C07", "Properties.CoreWrap", "Properties.Prov.Hints", "Properties.Prov.Decorate", "Properties.Core", "Properties.Prov.Expand", "Properties.CoreHints", "Properties.CoreDecorate"]
+GENERATED = ['DtypeTables', 'Wrapper', 'SrcHints', 'SrcDecorate', 'Core', 'SrcExpand', 'HintLoop', 'Decorate', 'Resolve']  # generated files this check's tie depends on
+LEAN_MODULES = ["Properties.C07", "Properties.CoreWrap", "Properties.Prov.Hints", "Properties.Prov.Decorate", "Properties.Core", "Properties.Prov.Expand", "Properties.CoreHints", "Properties.CoreDecorate", "Properties.CoreResolve"]
 RULE = (
     "seeded dltyped functions (1-4 parameters, tuples, optionals, providers, return hint; positional, keyword, mixed, keyword-only and positional-only parameters, forward references, trailing parameters left at their default value) called with inputs that are conforming except "
     "for one violation placed in a single argument position / tuple element, or only in the return value; the body appends to a side-effect "
